@@ -285,7 +285,9 @@ func installTrace() {
 		case "cap.batch":
 			pc.h.emit(map[string]any{"ev": "count", "p": pc.name, "matching": toInt32(m["matching"])})
 		case "beacon.cap":
-			pc.h.emit(map[string]any{"ev": "count", "p": pc.name, "matching": toInt32(m["matching"])})
+			// the count the budget is derived from: budget = max - matching with the max the beacon was given
+			// (a caller may pass a reduced max to account for matches the beacon cannot see)
+			pc.h.emit(map[string]any{"ev": "count", "p": pc.name, "matching": pc.h.max - (toInt32(m["max"]) - toInt32(m["matching"]))})
 		case "cap.cell":
 			pc.h.emit(map[string]any{"ev": "cell", "p": pc.name, "k": keyNum(m["key"].(string)), "was": b2i(m["pre"]), "now": b2i(m["post"]),
 				"ok": b2i(m["accepted"]), "left": toInt32(m["left"])})
